@@ -541,8 +541,9 @@ func ProcessRedTracesIngest(myid int64) {
 	// Map from the service name to the RED metrics
 	serviceToMetrics := make(map[string]structs.RedMetrics)
 
+	// span ids are only unique within a trace: key the lookup by (trace id, span id)
 	for _, span := range spans {
-		spanIDtoService[span.SpanID] = span.Service
+		spanIDtoService[span.TraceID+"/"+span.SpanID] = span.Service
 	}
 
 	// Get entry spans
@@ -550,7 +551,7 @@ func ProcessRedTracesIngest(myid int64) {
 
 		// A span is an entry point if it has no parent or its parent is a different service
 		if len(span.ParentSpanID) != 0 {
-			parentServiceName, exists := spanIDtoService[span.ParentSpanID]
+			parentServiceName, exists := spanIDtoService[span.TraceID+"/"+span.ParentSpanID]
 			if exists && parentServiceName == span.Service {
 				continue
 			}
@@ -733,13 +734,13 @@ func MakeTracesDependancyGraph(startEpoch int64, endEpoch int64, myid int64) map
 	dependencyMatrix := make(map[string]map[string]int)
 
 	for _, span := range allSpans {
-		spanIdToServiceName[span.SpanID] = span.Service
+		spanIdToServiceName[span.TraceID+"/"+span.SpanID] = span.Service
 	}
 	for _, span := range allSpans {
 		if span.ParentSpanID == "" {
 			continue
 		}
-		parentService, parentExists := spanIdToServiceName[span.ParentSpanID]
+		parentService, parentExists := spanIdToServiceName[span.TraceID+"/"+span.ParentSpanID]
 		if !parentExists {
 			continue
 		}
